@@ -245,6 +245,9 @@ impl Monitor for C10 {
                 ChildEnd::Exited(c, _) if *c == EXIT_ALLOC_CAP => {
                     acc.violation(format!("C10/unbounded-allocation/{}/{}", build, gen_name), case, detail(json!({"cap_bytes": cap})));
                 }
+                ChildEnd::Blocked => {
+                    acc.violation(format!("C10/hang-blocked-in-a-system-call/{}/{}", build, gen_name), case, detail(json!({"observation": "the child slept in a system call without any CPU progress for 12 s"})));
+                }
                 ChildEnd::Signaled(sig) if *sig == libc::SIGXCPU => {
                     acc.violation(format!("C10/hang-cpu-limit/{}/{}", build, gen_name), case, detail(json!({"signal": "SIGXCPU"})));
                 }
